@@ -89,6 +89,10 @@ def run(pid, tier, ev=None, vd=None, finish=True):
         for k in range(4):
             jobs.append({"prog": "putdir", "program": {1: [("put", "d", None, "c2"), ("get", "d/k")], 2: [("put", "f", "c1", "c3"), ("get", "d")]},
                          "init": {"f": "c1", "d/k": "c1"}, "policy": "random", "seed": vlib.seed() * 17 + k, "src": "corpus"})
+        # a Put to a path UNDER a file (it cannot be staged): an error reply for that request, the session goes on
+        for k in range(4):
+            jobs.append({"prog": "putunder", "program": {1: [("put", "f/x", None, "c2"), ("get", "f"), ("put", "g", None, "c2")], 2: [("put", "f", "c1", "c3"), ("get", "f/x")]},
+                         "init": {"f": "c1", "d/k": "c1"}, "policy": "random", "seed": vlib.seed() * 19 + k, "src": "corpus"})
         # the hub's own lock file addressed by a client as an ordinary path (it starts empty = "c0"): whatever the hub
         # answers, the compare-and-swap of the OTHER clients must stay linearizable (schedule as in lock_identity)
         jobs.append({"prog": "lockfile", "program": {1: [("put", ".copia/commit.lock", "c0", "c2")], 2: [("put", "f", "c1", "c2")], 3: [("put", "f", "c1", "c3")]},
